@@ -639,8 +639,8 @@ def run_history(calls, on_read=None):
 
     def obj(k):
         if k not in objs:
-            objs[k] = fakeif.connect(dev.handler)[0]
-        return objs[k]
+            objs[k] = fakeif.connect(dev.handler)
+        return objs[k][0]
 
     def read(ipmi, fru):
         try:
@@ -665,9 +665,12 @@ def run_history(calls, on_read=None):
                     return ('write_fru_data did not store the image (call %d)' % n, n, True)
             cur[fru] = exp
         elif fru in cur:
-            got = read(obj(c['obj']), fru)
+            ipmi = obj(c['obj'])
+            log = objs[c['obj']][1].log
+            start = len(log)
+            got = read(ipmi, fru)
             if on_read:
-                on_read(n, bytes(dev.mem[fru]), got)
+                on_read(n, bytes(dev.mem[fru]), got, fru, log[start:])
             bad = None
             if got[0] == 'exc':
                 bad = 'raises %s' % got[1]
@@ -950,12 +953,18 @@ def run(ctx):
             if rng.random() < 0.5:
                 calls.append({'op': 'read', 'fru': rng.choice(frus), 'obj': rng.choice([0, 1])})
 
-        def on_read(n, mem, got):
+        def on_read(n, mem, got, fru, exch):
             exp = '(Ok (%s, %s, %s, %s))' % (c_obs_area(got[1]['chassis']), c_obs_area(got[1]['board']),
                                              c_obs_area(got[1]['product']), c_obs_multi(got[1]['multi'])) \
                 if got[0] == 'ok' else '(Err %s)' % c_err(got[1])
             add('chk_dev %s %s' % (C.c_hex(mem), exp), ('device-history', hno, n))
-            res.evaluations += 1
+            # the composed model client (C10 transfer loops + the area classes) against the recorded replies
+            from . import fakeif
+            add('chk_dev_replay %s %d %s %s %s' % (C.c_nat(len(mem) // 5 + 2), fru,
+                                                   C.c_list([fakeif.c_reply(x) for x in exch]),
+                                                   C.c_list([fakeif.c_request(x) for x in exch]), exp),
+                ('device-replay', hno, n, len(exch)))
+            res.evaluations += 2
         r = run_history(calls, on_read)
         D.add(('hist', repr(calls)), True, 'device-history')
         if r is not None:
@@ -966,7 +975,7 @@ def run(ctx):
                                          ' [history of %d call(s)]' % len(seq),
                                          replay={'oracle': 'device_history', 'input': {'calls': seq}})
 
-    failing, errors = C.coq_cases('C15', 'Model.FruParse Model.FruSpec Corr.C15', terms, shard=250)
+    failing, errors = C.coq_cases('C15', 'Lib.Prog Model.FruParse Model.FruSpec Corr.C15', terms, shard=250)
     res.mismatches = [{'case': meta[i], 'term': terms[i][:1500]} for i in failing[:50]]
     res.corr_errors = errors
     res.evaluations += len(terms)
